@@ -7,6 +7,8 @@ A history (JSON-able) is
                                                              observation.cancel() when it is handed this message
                 ["X", t, k]                           |      pipe.add_exception(EXC[k])
                 ["OC", t] | ["RC", t]],                      observation.cancel() / response.cancel()
+     "eb_cancels": bool,                    # the application's errback calls observation.cancel() on the
+                                            # observation it is being told the end of
      "iter": None | {"mode": "attentive"|"lazy"|"busy", "start": i, "work": k}}   async-iterator consumer
          (`async for` over request.observation, opened just before event `start`): "attentive" gets
          three event-loop iterations after every event, "lazy" is not scheduled at all until all
@@ -102,8 +104,12 @@ class Bench:
 
         if req.observation is not None:
             req.observation.register_callback(app_callback, _suppress_deprecation=True)
-            req.observation.register_errback(lambda e: cur.append(("eb", e)),
-                                             _suppress_deprecation=True)
+            def app_errback(e):
+                cur.append(("eb", e))
+                if h.get("eb_cancels"):
+                    req.observation.cancel()
+
+            req.observation.register_errback(app_errback, _suppress_deprecation=True)
 
         it = h.get("iter") if req.observation is not None else None
         iter_out = []
@@ -260,7 +266,7 @@ def oracle_history(h, res):
     `async for` over it ends), later it changes nothing."""
     evs = h["events"]
     Err = res["Error"]
-    app_events = any(ev[0] in ("OC", "RC") or cancels(ev) for ev in evs)
+    app_events = any(ev[0] in ("OC", "RC") or cancels(ev) for ev in evs) or bool(h.get("eb_cancels"))
     misused_at = set()
     for i, n in res["escaped"]:
         if evs[i][0] in ("M", "X"):
